@@ -86,7 +86,9 @@ func (r *Reader) Next() (Packet, error) {
 		return Packet{}, err
 	}
 
-	if header.Length == 0 {
+	// Length includes the record header itself: anything shorter is malformed
+	// (and would wrap the payload length below).
+	if header.Length < pktHeaderLen {
 		return Packet{}, errMalformed
 	}
 
